@@ -3,6 +3,7 @@ package pts
 import (
 	"bufio"
 	"errors"
+	"fmt"
 	"io"
 	"strconv"
 	"strings"
@@ -48,7 +49,7 @@ func ReadPointCloud(in io.Reader) (*modeling.Mesh, error) {
 	readColor := false
 
 	curLine := 0
-	for scanner.Scan() && curLine < parsedCount {
+	for curLine < parsedCount && scanner.Scan() {
 		line := strings.TrimSpace(scanner.Text())
 		if line == "" {
 			return nil, errors.New("encountered empty line in pts")
@@ -87,6 +88,10 @@ func ReadPointCloud(in io.Reader) (*modeling.Mesh, error) {
 
 	if scanner.Err() != nil {
 		return nil, scanner.Err()
+	}
+
+	if curLine < parsedCount {
+		return nil, fmt.Errorf("pts declares %d points but contains %d: %w", parsedCount, curLine, io.ErrUnexpectedEOF)
 	}
 
 	v3Data := make(map[string][]vector3.Float64)
